@@ -155,9 +155,7 @@ pub proof fn c06_adjacent_swap<B: AsRefBytes>(l: Seq<(Pk, B)>, i: int, d: Seq<u8
         reveal_with_fuel(sum_hx, 3);
         assert(sum_hx(l, d) == fadd(fadd(a, t1), t2));
         assert(sum_hx(l2, d) == fadd(fadd(a, t2), t1));
-        assert(fadd(fadd(a, t1), t2) == fadd(a, fadd(t1, t2)));
-        assert(fadd(t1, t2) == fadd(t2, t1));
-        assert(fadd(a, fadd(t2, t1)) == fadd(fadd(a, t2), t1));
+        lemma_add_assoc(a, t1, t2); lemma_add_comm(t1, t2); lemma_add_assoc(a, t2, t1);
     } else {
         c06_adjacent_swap(l.drop_last(), i, d);
         assert(l2.drop_last() =~= l.drop_last().update(i, l[i + 1]).update(i + 1, l[i]));
